@@ -224,6 +224,10 @@ def run_tlc(module, cfg, workdir, workers=NCPU, export_cb=None, timeout=1800,
     shutil.rmtree(meta, ignore_errors=True)
     if killed:
         raise MachineryError("TLC timed out after %ss: %s" % (timeout, res.cmd))
+    blob = (res.violation or "") + "\n".join(res.error_trace[:20]) + "\n".join(tail[-40:])
+    if "ran out of memory" in blob or "OutOfMemoryError" in blob or "GC overhead limit" in blob:
+        # resource exhaustion of the checker is a failure of the machinery, never a verdict about the property
+        raise MachineryError("TLC ran out of memory: %s" % res.cmd)
     return res
 
 
